@@ -16,6 +16,6 @@ META = {
 
 def run(ctx):
     ctx.cov['rule'] = ('one case = one program run on the real interpreter; evaluations = statement boundaries validated by TLC (each compares all 10 variables); distinct = distinct program texts')
-    interp_check.run_model_families(ctx, ['fn'])
+    interp_check.run_model_families(ctx, ['fn', 'fndt'])
     interp_check.run_family(ctx, {'ctl', 'fn', 'err'}, ctx.pick(220, 5000), size=10,
                             focus={'simple': 45, 'for': 8, 'gosub': 6, 'err': 6, 'if': 10})
